@@ -168,11 +168,19 @@ pub fn inject_fault(c: &mut Choices, p: &mut Program) -> (String, usize, String)
                     arms.push_str(&format!("{pat} => {vi}, "));
                 }
                 let (v0, t0) = &en.variants[0];
-                let ctor = if t0.is_empty() { format!("{}::{}", en.name, v0) } else { return inject_simple_match(c, p, id, target, pos) };
-                variant = "user-enum".into();
-                vec![raw(format!("let zq{id}: Int64 = match {ctor} {{ {arms} }};"))]
+                if t0.is_empty() {
+                    let ctor = format!("{}::{}", en.name, v0);
+                    variant = "user-enum".into();
+                    vec![raw(format!("let zq{id}: Int64 = match {ctor} {{ {arms} }};"))]
+                } else {
+                    let (t, v) = simple_match_text(c, id);
+                    variant = v.into();
+                    vec![raw(t)]
+                }
             } else {
-                return inject_simple_match(c, p, id, target, pos);
+                let (t, v) = simple_match_text(c, id);
+                variant = v.into();
+                vec![raw(t)]
             }
         }
         _ => {
@@ -189,20 +197,40 @@ pub fn inject_fault(c: &mut Choices, p: &mut Program) -> (String, usize, String)
             vec![]
         }
     };
+    // half of the statement-level faults are moved into an expression position: the faulty statements become the
+    // body of a block expression that sits in a guard, a condition, an argument, a string template, a lambda, an
+    // index, a tuple element, a scrutinee … (the analyses have to reach every expression position)
+    let stmts = if !stmts.is_empty() && c.chance(1, 2) {
+        let body: String = stmts.iter().map(|s| if let Stmt::Raw(t) = s { t.clone() } else { String::new() }).collect::<Vec<_>>().join(" ");
+        let (text, site) = match c.below(11) {
+            0 => (format!("match 1 {{ 1 if {{ {body} true }} => (), _ => () }}"), "match-guard"),
+            1 => (format!("if {{ {body} true }} {{ }}"), "if-condition"),
+            2 => (format!("while {{ {body} false }} {{ }}"), "while-condition"),
+            3 => (format!("tr({{ {body} 1 }});"), "call-argument"),
+            4 => (format!("let zw{id}: String = \"a${{ {{ {body} 1 }} }}b\";"), "string-template"),
+            5 => (format!("let zw{id}: (): Int64 = ||: Int64 {{ {body} 1 }};"), "lambda-body"),
+            6 => (format!("let zw{id} = Array[Int64]::new(1, 2); zw{id}({{ {body} 0 }});"), "array-index"),
+            7 => (format!("let zw{id}: (Int64, Int64) = (1, {{ {body} 2 }});"), "tuple-element"),
+            8 => (format!("match {{ {body} 1 }} {{ _ => () }}"), "match-scrutinee"),
+            9 => (format!("for zi{id} in std::range(0, {{ {body} 1 }}) {{ }}"), "for-iterable"),
+            _ => (format!("match 2 {{ 1 => (), _ if {{ {body} false }} => (), _ => () }}"), "wildcard-guard"),
+        };
+        variant = format!("{variant}@{site}");
+        vec![Stmt::Raw(text)]
+    } else {
+        stmts
+    };
     let depth = if stmts.is_empty() { 0 } else { insert_at(p, target, pos, stmts) };
     (class.to_string(), depth, variant)
 }
 
-fn inject_simple_match(c: &mut Choices, p: &mut Program, id: usize, target: usize, pos: usize) -> (String, usize, String) {
-    let v = c.below(4);
-    let (text, variant) = match v {
+fn simple_match_text(c: &mut Choices, id: usize) -> (String, &'static str) {
+    match c.below(4) {
         0 => (format!("let zq{id}: Int64 = match Some[Int64](1) {{ Some(x) => x }};"), "option-missing-none"),
         1 => (format!("let zq{id}: Int64 = match true {{ true => 1 }};"), "bool-missing-false"),
         2 => (format!("let zq{id}: Int64 = match (true, false) {{ (true, _) => 1, (false, true) => 2 }};"), "tuple-missing-combination"),
         _ => (format!("let zq{id}: Int64 = match tr(3) {{ 1 => 1, 2 => 2, x if x > 5 => 3 }};"), "int-guard-does-not-cover"),
-    };
-    let depth = insert_at(p, target, pos, vec![Stmt::Raw(text)]);
-    ("non-exhaustive-match".to_string(), depth, variant.to_string())
+    }
 }
 
 pub struct FrontEndReport {
